@@ -56,6 +56,15 @@ Variable w : list byte.
 Notation parslt := (parslt json_grammar uprop w).
 Notation rid := (rule_id json_grammar).
 Let Hsk := skip_ok uprop w.
+Notation parslt_ext := (parslt_ext json_grammar uprop w Hsk).
+Notation parslt_map := (parslt_map json_grammar uprop w Hsk).
+Notation parslt_or := (parslt_or json_grammar uprop w Hsk).
+Notation parslt_lit := (parslt_lit json_grammar uprop w Hsk).
+Notation parslt_byte := (parslt_byte json_grammar uprop w Hsk).
+Notation parslt_seq := (parslt_seq json_grammar uprop w Hsk).
+Notation parslt_rule := (parslt_rule json_grammar uprop w Hsk).
+Notation parslt_atomic_rule := (parslt_atomic_rule json_grammar uprop w Hsk).
+Notation parslt_list := (parslt_list json_grammar uprop w Hsk).
 
 (* forests: of a value at the level of its kind (the children of the `value` node), of a value, of a member *)
 Definition t_kind (d : jdoc) : list tree := t_children (tree_of rid d).
@@ -68,7 +77,7 @@ Proof. destruct d; reflexivity. Qed.
 (* ---- the scalar kinds ---- *)
 Lemma pl_string B : parslt B (EIdent (nm "string")) (p_scan scan_string) (fun s => [Node (rid (nm "string")) None (fst s) (snd s) []]).
 Proof.
-  apply (parslt_atomic_rule json_grammar uprop w B (nm "string") string_body scan_string eq_refl eq_refl eq_refl rule_string).
+  apply (parslt_atomic_rule B (nm "string") string_body scan_string eq_refl eq_refl eq_refl rule_string).
   intros B'. apply lexb_string_body.
 Qed.
 Lemma K_string B : parslt B (EIdent (nm "string")) p_string t_kind.
@@ -76,21 +85,21 @@ Proof. eapply parslt_map; [apply pl_string|]. intros [s e]. reflexivity. Qed.
 Lemma K_number B : parslt B (EIdent (nm "number")) p_number t_kind.
 Proof.
   eapply parslt_map.
-  - apply (parslt_atomic_rule json_grammar uprop w B (nm "number") number_body scan_number eq_refl eq_refl eq_refl rule_number).
+  - apply (parslt_atomic_rule B (nm "number") number_body scan_number eq_refl eq_refl eq_refl rule_number).
     intros B'. apply lexb_number_body.
   - intros [s e]. reflexivity.
 Qed.
 Lemma K_bool B : parslt B (EIdent (nm "bool")) p_bool t_kind.
 Proof.
   destruct ascii_lits as (At & Af & _).
-  eapply (parslt_rule json_grammar uprop w B (nm "bool") bool_body _ (fun o e b => JBool b o e) (fun _ => []));
+  eapply (parslt_rule B (nm "bool") bool_body _ (fun o e b => JBool b o e) (fun _ => []));
     [reflexivity|reflexivity|reflexivity|exact rule_bool| |reflexivity].
   apply parslt_or; (eapply parslt_map; [apply parslt_lit; assumption|reflexivity]).
 Qed.
 Lemma K_null B : parslt B (EIdent (nm "null")) p_null t_kind.
 Proof.
   destruct ascii_lits as (_ & _ & An).
-  eapply (parslt_rule json_grammar uprop w B (nm "null") null_body _ (fun o e _ => JNull o e) (fun _ => []));
+  eapply (parslt_rule B (nm "null") null_body _ (fun o e _ => JNull o e) (fun _ => []));
     [reflexivity|reflexivity|reflexivity|exact rule_null| |reflexivity].
   apply parslt_lit; assumption.
 Qed.
@@ -102,9 +111,9 @@ Lemma K_array B pv : parslt B (EIdent (nm "value")) pv t_val ->
   parslt (S B) (EIdent (nm "array")) (p_span JArray (p_list 91 93 pv)) t_kind.
 Proof.
   intros L.
-  eapply (parslt_rule json_grammar uprop w (S B) (nm "array") array_body _ JArray (flat_map t_val));
+  eapply (parslt_rule (S B) (nm "array") array_body _ JArray (flat_map t_val));
     [reflexivity|reflexivity|reflexivity|exact rule_array| |].
-  - apply (parslt_list json_grammar uprop w Hsk B 91%N 93%N); [reflexivity|reflexivity|exact L].
+  - apply (parslt_list B 91%N 93%N); [reflexivity|reflexivity|exact L].
   - intros p l ds k _. unfold t_kind, t_val. cbn [tree_of t_children]. now rewrite flat_map_single.
 Qed.
 
@@ -112,16 +121,16 @@ Lemma M_pair B pv : spans pv -> parslt B (EIdent (nm "value")) pv t_val ->
   parslt B (EIdent (nm "pair")) (p_pair pv) t_mem.
 Proof.
   intros Sp L. unfold p_pair.
-  pose proof (parslt_seq json_grammar uprop w Hsk B _ _ _ _ _ _
-                (parslt_seq json_grammar uprop w Hsk B _ _ _ _ _ _ (pl_string B) (parslt_byte json_grammar uprop w B 58%N eq_refl)) L) as Lb.
+  pose proof (parslt_seq B _ _ _ _ _ _
+                (parslt_seq B _ _ _ _ _ _ (pl_string B) (parslt_byte B 58%N eq_refl)) L) as Lb.
   eapply parslt_ext.
-  - eapply (parslt_rule json_grammar uprop w B (nm "pair") pair_body _
+  - eapply (parslt_rule B (nm "pair") pair_body _
              (fun _ _ (x : nat * nat * unit * jdoc) => match x with (k, _, v) => (fst k, snd k, v) end) _ t_mem
              eq_refl eq_refl eq_refl rule_pair Lb).
     intros p l [[[ks ke] u] v] k. unfold p_seq at 1. unfold p_seq at 1. unfold p_scan, p_byte.
     destruct (scan_string l) as [n1|]; [|discriminate]. destruct (head_is 58 _); [|discriminate].
-    destruct (pv _ _) as [[v' n3]|] eqn:Pv; [|discriminate]. intros [= <- <- <- <-].
-    destruct (Sp _ _ _ _ Pv) as [_ He]. cbn [fst snd t_mem t_val app]. unfold leaf. rewrite He. do 3 f_equal. lia.
+    destruct (pv _ _) as [[v' n3]|] eqn:Pv; [|discriminate]. intros [= <- <- <- <- <-].
+    destruct (Sp _ _ _ _ Pv) as [_ He]. cbn [fst snd t_mem t_val app]. unfold leaf. rewrite He. do 2 f_equal. lia.
   - intros p l. unfold p_span, p_map. destruct (p_seq _ _ p l) as [[x n]|]; reflexivity.
 Qed.
 
@@ -129,9 +138,9 @@ Lemma K_object B pv : spans pv -> parslt B (EIdent (nm "value")) pv t_val ->
   parslt (S B) (EIdent (nm "object")) (p_span JObject (p_list 123 125 (p_pair pv))) t_kind.
 Proof.
   intros Sp L.
-  eapply (parslt_rule json_grammar uprop w (S B) (nm "object") object_body _ JObject (flat_map t_mem));
+  eapply (parslt_rule (S B) (nm "object") object_body _ JObject (flat_map t_mem));
     [reflexivity|reflexivity|reflexivity|exact rule_object| |].
-  - apply (parslt_list json_grammar uprop w Hsk B 123%N 125%N); [reflexivity|reflexivity|]. apply M_pair; assumption.
+  - apply (parslt_list B 123%N 125%N); [reflexivity|reflexivity|]. apply M_pair; assumption.
   - intros p l ms k _. unfold t_kind. cbn [tree_of t_children]. do 2 f_equal.
     induction ms as [|[[ks ke] v] ms IH]; [reflexivity|]. cbn [flat_map map t_mem app]. now rewrite IH.
 Qed.
@@ -141,7 +150,7 @@ Theorem value_ok : forall B, parslt B (EIdent (nm "value")) (parse_value B) t_va
 Proof.
   induction B as [|B IH]; [intros p l sg Hl; lia|].
   eapply parslt_ext.
-  - eapply (parslt_rule json_grammar uprop w (S B) (nm "value") value_body (parse_value (S B)) (fun _ _ d => d) t_kind);
+  - eapply (parslt_rule (S B) (nm "value") value_body (parse_value (S B)) (fun _ _ d => d) t_kind);
       [reflexivity|reflexivity|reflexivity|exact rule_value| |].
     + eapply parslt_ext; [|intros p l; cbn [parse_value]; reflexivity].
       repeat apply parslt_or.
